@@ -44,20 +44,20 @@ fn splits<const L: usize>() {
 }
 
 #[kani::proof]
-#[kani::unwind(70)]
+#[kani::unwind(42)]
 fn c17_splits() {
     splits::<8>();
 }
 
 #[kani::proof]
-#[kani::unwind(70)]
+#[kani::unwind(42)]
 fn c17_splits_24() {
     splits::<24>();
 }
 
 /// C17: the reconnect check is SHA-1(salt | 20 zero bytes); the salt generator is a 16-byte draw.
 #[kani::proof]
-#[kani::unwind(70)]
+#[kani::unwind(42)]
 fn c17_reconnect() {
     let salt: [u8; 16] = kani::any();
     let expected = verif_oracle::sha1_of(&[&salt, &[0u8; 20]]);
@@ -88,7 +88,7 @@ fn c15_integrity_salt() {
 /// five files, each function feeds HMAC exactly the bytes of the buffer, once and in order (span mode of the
 /// HMAC model: the pieces handed to `update` are consecutive sub-slices covering the whole buffer).
 #[kani::proof]
-#[kani::unwind(70)]
+#[kani::unwind(42)]
 fn c17_large_inputs() {
     const MAX: usize = 200_000;
     let len: usize = kani::any();
